@@ -122,7 +122,7 @@ func c15Render(apps []*c15App) string {
 
 // ---------- generator ----------
 
-var c15AppNames = []string{"Alpha", "Beta", "Gamma", "Delta"}
+var c15AppNames = []string{"Alpha", "AlphaBeta", "Beta", "Gamma"} // one name is a proper prefix of another
 var c15TypeNames = []string{"Item", "Order", "User", "Addr", "X", "Ty%2EX", "Ty%2EItem", "a", "b"}
 var c15FieldNames = []string{"a", "b", "c", "d", "e", "f", "g"}
 
@@ -342,6 +342,111 @@ var _ = registerOp("c15.dm", func(raw json.RawMessage) (interface{}, error) {
 	}()
 	return res, nil
 })
+
+type c15PerAppRes struct {
+	Outs  map[string]string `json:"outs,omitempty"`
+	Err   string            `json:"err,omitempty"`
+	Panic string            `json:"panic,omitempty"`
+	Frame string            `json:"frame,omitempty"`
+}
+
+// per-application output mode: one diagram per application (%(epname) in the output name)
+var _ = registerOp("c15.perapp", func(raw json.RawMessage) (interface{}, error) {
+	var a c15Arg
+	if err := json.Unmarshal(raw, &a); err != nil {
+		return nil, err
+	}
+	m, err := parse.NewParser().ParseString(a.Text)
+	if err != nil {
+		return nil, fmt.Errorf("parse: %v", err)
+	}
+	lg := logrus.New()
+	lg.SetOutput(io.Discard)
+	res := &c15PerAppRes{}
+	func() {
+		defer func() {
+			if r := recover(); r != nil {
+				res.Panic = fmt.Sprint(r)
+				res.Frame = repoFrame(string(debug.Stack()))
+			}
+		}()
+		out, err := datamodeldiagram.GenerateDataModels(&cmdutils.CmdContextParamDatagen{Direct: true, Output: "%(epname).puml", ClassFormat: "%(classname)"}, m, lg)
+		if err != nil {
+			res.Err = err.Error()
+			return
+		}
+		res.Outs = out
+	}()
+	return res, nil
+})
+
+// checkC15PerApp: in per-application mode every diagram declares exactly the types of its own
+// application (class ownership only: how references that leave the application are drawn in this
+// mode is outside the quantified domain).
+func checkC15PerApp(x *X, c c15Case) error {
+	var res c15PerAppRes
+	death, err, inconclusive := sandboxCall("c15.perapp", c15Arg{Text: c.Text}, &res)
+	if inconclusive {
+		x.Inconclusive("c15.perapp overran once and did not reproduce")
+		return nil
+	}
+	if death != nil {
+		return deathErr(death, "data-model diagrams (per-application mode)")
+	}
+	if err != nil {
+		return fmt.Errorf("harness: %v", err)
+	}
+	if res.Panic != "" {
+		return finding("panic@"+res.Frame, "per-application data-model generation panicked: %s\n%s", res.Panic, c.Text)
+	}
+	if res.Err != "" {
+		return fmt.Errorf("per-application data-model generation failed on a valid model: %s\n%s", res.Err, c.Text)
+	}
+	prefixPair := false
+	for _, a := range c.Apps {
+		for _, b := range c.Apps {
+			if a != b && strings.HasPrefix(b.Name, a.Name) {
+				prefixPair = true
+			}
+		}
+	}
+	if prefixPair {
+		x.Class("perapp_app_name_is_prefix_of_another")
+		x.NonTrivial("perapp:" + c.Text)
+	}
+	for _, a := range c.Apps {
+		out, ok := res.Outs[a.Name+".puml"]
+		want := map[string]bool{}
+		for _, t := range a.Types {
+			want[a.Name+"."+t.model()] = true
+		}
+		if !ok {
+			if len(want) == 0 {
+				continue
+			}
+			return fmt.Errorf("no diagram for application %s (outputs: %d)\n%s", a.Name, len(res.Outs), c.Text)
+		}
+		d := c15Read(out)
+		seen := map[string]int{}
+		for _, cl := range d.classes {
+			seen[cl.Label]++
+			if !want[cl.Label] {
+				return fmt.Errorf("diagram of application %s declares class %q, which is not one of its types\n---- diagram\n%s\n---- model\n%s", a.Name, cl.Label, out, c.Text)
+			}
+		}
+		for l := range want {
+			if seen[l] != 1 {
+				return fmt.Errorf("diagram of application %s declares %q %d times, want once\n---- diagram\n%s\n---- model\n%s", a.Name, l, seen[l], out, c.Text)
+			}
+		}
+		x.Class("perapp_diagram_checked")
+	}
+	return nil
+}
+
+var c15PerApp = Define("C15", "perapp",
+	"the data models of 'classes' generated in per-application mode (%(epname) in the output name; application names include one that is a proper prefix of another): every application's diagram declares exactly its own types, each once, and no class of another application. Non-trivial: two applications with prefix-related names.",
+	genC15, checkC15PerApp)
 
 // ---------- reader ----------
 
@@ -702,4 +807,5 @@ var c15Diag = Define("C15", "classes",
 func TestC15(t *testing.T) {
 	checkKnown(t, "C15")
 	c15Diag.Run(t, scale(1800, 8000))
+	c15PerApp.Run(t, scale(500, 2500))
 }
